@@ -30,7 +30,7 @@ package curves
 //@ pure linRamp(avg float64, minT float64, maxT float64) int = avg >= maxT ? 255 : (avg <= minT ? 0 : int(((avg - minT) / (maxT - minT)) * 255.0))
 
 //@ func (*LinearSpeedCurve).Evaluate
-//@   props C06
+//@   props C06 C09
 //@   requires c.Config.Linear != nil && c.Config.Linear.Sensor in sensorReg && c.Config.Linear.Sensor in sensorFinite
 //@   requires c.Config.Linear.Steps != nil ==> util.stepsOK(c.Config.Linear.Steps)
 //@   requires c.Config.Linear.Steps == nil ==> c.Config.Linear.Min < c.Config.Linear.Max && -1000000 <= c.Config.Linear.Min && c.Config.Linear.Max <= 1000000
@@ -46,7 +46,7 @@ package curves
 //@ pure byteVals(a []int) bool = forall j :: 0 <= j && j < len(a) ==> 0 <= a[j] && a[j] <= 255
 
 //@ func (*FunctionSpeedCurve).Evaluate
-//@   props C06
+//@   props C06 C09
 //@   requires c.Config.Function != nil && fnTypeOK(c.Config.Function.Type)
 //@   requires len(c.Config.Function.Curves) >= 1 && len(c.Config.Function.Curves) <= 100000
 //@   requires forall i :: 0 <= i && i < len(c.Config.Function.Curves) ==> c.Config.Function.Curves[i] in curveReg
@@ -72,23 +72,30 @@ package curves
 //@     invariant -1 <= rangeindex && rangeindex < len(c.Config.Function.Curves) && len(curves) == rangeindex + 1 && (arrayOf(curves) == 0 || arrayOf(curves) >= old(W)) && (len(curves) == 0 ==> cap(curves) == 0)
 //@     invariant forall j :: 0 <= j && j < len(curves) ==> curves[j] != nil
 //@   loop 2 "for _, curve := range curves"
-//@     invariant -1 <= rangeindex && rangeindex < len(curves) && len(values) == rangeindex + 1 && (arrayOf(values) == 0 || arrayOf(values) >= old(W)) && (len(values) == 0 ==> cap(values) == 0) && byteVals(values)
+//@     invariant -1 <= rangeindex && rangeindex < len(curves) && len(values) == rangeindex + 1 && (arrayOf(values) == 0 || arrayOf(values) >= old(W)) && (len(values) == 0 ==> cap(values) == 0)
+//@     invariant[C06.vals] byteVals(values)
 //@     invariant len(curves) == len(c.Config.Function.Curves) && c.Config.Function == old(c.Config.Function) && fnTypeOK(c.Config.Function.Type) && (forall j :: 0 <= j && j < len(curves) ==> curves[j] != nil)
 //@   loop 3 "for _, v := range values"
-//@     invariant -1 <= rangeindex && rangeindex < len(values) && byteVals(values) && len(values) == len(curves) && len(curves) >= 1 && 0 <= sum && sum <= 255 * (rangeindex + 1) && sum == sumto(seqof(values), rangeindex + 1)
+//@     invariant -1 <= rangeindex && rangeindex < len(values) && len(values) == len(curves) && len(curves) >= 1
+//@     invariant[C06.fold] byteVals(values) && 0 <= sum && sum <= 255 * (rangeindex + 1) && sum == sumto(seqof(values), rangeindex + 1)
 //@   loop 4 "for idx, v := range values"
-//@     invariant -1 <= rangeindex && rangeindex < len(values) && byteVals(values) && len(values) == len(curves) && len(curves) >= 1 && (rangeindex == -1 ==> difference == 0) && (rangeindex >= 0 ==> difference <= values[0] && difference >= values[0] - 255 * rangeindex && difference == 2 * values[0] - sumto(seqof(values), rangeindex + 1))
+//@     invariant -1 <= rangeindex && rangeindex < len(values) && len(values) == len(curves) && len(curves) >= 1
+//@     invariant[C06.fold] byteVals(values) && (rangeindex == -1 ==> difference == 0) && (rangeindex >= 0 ==> difference <= values[0] && difference >= values[0] - 255 * rangeindex && difference == 2 * values[0] - sumto(seqof(values), rangeindex + 1))
 //@   loop 5 "for _, v := range values"
-//@     invariant -1 <= rangeindex && rangeindex < len(values) && byteVals(values) && len(values) == len(curves) && len(curves) >= 1 && fin(dmin) && fin(dmax) && 0.0 <= dmin && dmin <= dmax && dmax <= 255.0 && (exists i, j :: 0 <= i && i < len(values) && 0 <= j && j < len(values) && real(dmax) == real(values[i]) && real(dmin) == real(values[j])) && (forall k :: 0 <= k && k <= rangeindex ==> real(dmin) <= real(values[k]) && real(values[k]) <= real(dmax))
+//@     invariant -1 <= rangeindex && rangeindex < len(values) && len(values) == len(curves) && len(curves) >= 1
+//@     invariant[C06.fold] byteVals(values) && fin(dmin) && fin(dmax) && 0.0 <= dmin && dmin <= dmax && dmax <= 255.0 && (exists i, j :: 0 <= i && i < len(values) && 0 <= j && j < len(values) && real(dmax) == real(values[i]) && real(dmin) == real(values[j])) && (forall k :: 0 <= k && k <= rangeindex ==> real(dmin) <= real(values[k]) && real(values[k]) <= real(dmax))
 //@   loop 6 "for _, v := range values"
-//@     invariant -1 <= rangeindex && rangeindex < len(values) && byteVals(values) && len(values) == len(curves) && len(curves) >= 1 && fin(min) && 0.0 <= min && min <= 255.0 && (forall k :: 0 <= k && k <= rangeindex ==> real(min) <= real(values[k])) && (real(min) == 255.0 || (exists j :: 0 <= j && j <= rangeindex && real(min) == real(values[j])))
+//@     invariant -1 <= rangeindex && rangeindex < len(values) && len(values) == len(curves) && len(curves) >= 1
+//@     invariant[C06.fold] byteVals(values) && fin(min) && 0.0 <= min && min <= 255.0 && (forall k :: 0 <= k && k <= rangeindex ==> real(min) <= real(values[k])) && (real(min) == 255.0 || (exists j :: 0 <= j && j <= rangeindex && real(min) == real(values[j])))
 //@   loop 7 "for _, v := range values"
-//@     invariant -1 <= rangeindex && rangeindex < len(values) && byteVals(values) && len(values) == len(curves) && len(curves) >= 1 && fin(max) && 0.0 <= max && max <= 255.0 && (forall k :: 0 <= k && k <= rangeindex ==> real(max) >= real(values[k])) && (real(max) == 0.0 || (exists j :: 0 <= j && j <= rangeindex && real(max) == real(values[j])))
+//@     invariant -1 <= rangeindex && rangeindex < len(values) && len(values) == len(curves) && len(curves) >= 1
+//@     invariant[C06.fold] byteVals(values) && fin(max) && 0.0 <= max && max <= 255.0 && (forall k :: 0 <= k && k <= rangeindex ==> real(max) >= real(values[k])) && (real(max) == 0.0 || (exists j :: 0 <= j && j <= rangeindex && real(max) == real(values[j])))
 //@   loop 8 "for _, v := range values"
-//@     invariant -1 <= rangeindex && rangeindex < len(values) && byteVals(values) && len(values) == len(curves) && len(curves) >= 1 && 0 <= total && total <= 255 * (rangeindex + 1) && total == sumto(seqof(values), rangeindex + 1)
+//@     invariant -1 <= rangeindex && rangeindex < len(values) && len(values) == len(curves) && len(curves) >= 1
+//@     invariant[C06.fold] byteVals(values) && 0 <= total && total <= 255 * (rangeindex + 1) && total == sumto(seqof(values), rangeindex + 1)
 
 //@ func (*PidSpeedCurve).Evaluate
-//@   props C06
+//@   props C06 C09
 //@   requires c.Config.PID != nil && c.pidLoop != nil && c.Config.PID.Sensor in sensorReg
 //@   ensures[C06.range.finite] err == nil && !isnan(lastPidOut) ==> 0 <= value && value <= 255
 //@   ensures[C06.range]   err == nil ==> 0 <= value && value <= 255
